@@ -80,7 +80,7 @@ theorem x_enter_recv (hack : Bool) (f0 : Flow) (r : AReq) (wr0 : BodyWriter) (P 
 
 theorem x_step_inv (hack : Bool) (f0 : Flow) (r : AReq) (wr0 : BodyWriter) (P : Bytes) (I H : Head) (b0 : BPos) (tail pre : Bytes)
     (X : XSetup hack f0 r wr0 P I H b0 pre) (htail : b0.isClose = true → tail = []) (x : Flow × SendObs × RecvObs) (s : IoStep)
-    (h : XInv hack f0 r wr0 P H b0 tail pre x) :
+    (h : XInv hack f0 r wr0 P H b0 tail pre x) (hsw : H.safeWin hack s.m) :
     XInv hack f0 r wr0 P H b0 tail pre (xStep hack P (pre ++ (H.enc ++ b0.enc ++ tail)) x s) := by
   obtain ⟨f, so, o⟩ := x
   rcases h with ⟨hAB, ho⟩ | ⟨hst, h0, hA, hp⟩ | ⟨hC, hp⟩ | ⟨hst, hh, haw, h0, ho, hnd, hreq, hspec, hoff⟩ | ⟨hw, hoff, f1, o', S, hsh, hri⟩
@@ -218,19 +218,23 @@ theorem x_step_inv (hack : Bool) (f0 : Flow) (r : AReq) (wr0 : BodyWriter) (P : 
       · rw [recvStep_done hack _ (f, o) s (by simp [recvDone, e])]; exact ⟨rfl, rfl⟩
       · rw [recvStep_done hack _ (f, o) s (by simp [recvDone, e])]; exact ⟨rfl, rfl⟩
     rw [hx, hsh, recvStep_shift]
-    exact Or.inr (Or.inr (Or.inr (Or.inr ⟨hw, hoff, f1, _, S, rfl, recv_step_inv hack H b0 tail f1 S f o' s hri⟩)))
+    exact Or.inr (Or.inr (Or.inr (Or.inr ⟨hw, hoff, f1, _, S, rfl, recv_step_inv hack H b0 tail f1 S f o' s hri hsw⟩)))
 
 theorem x_run_inv (hack : Bool) (f0 : Flow) (r : AReq) (wr0 : BodyWriter) (P : Bytes) (I H : Head) (b0 : BPos) (tail pre : Bytes)
-    (X : XSetup hack f0 r wr0 P I H b0 pre) (htail : b0.isClose = true → tail = []) (σ : List IoStep) :
+    (X : XSetup hack f0 r wr0 P I H b0 pre) (htail : b0.isClose = true → tail = []) (σ : List IoStep)
+    (hσ : ∀ s ∈ σ, H.safeWin hack s.m) :
     XInv hack f0 r wr0 P H b0 tail pre (xRun hack P (pre ++ (H.enc ++ b0.enc ++ tail)) f0 σ) := by
   unfold xRun
-  have gen : ∀ (σ : List IoStep) (x : Flow × SendObs × RecvObs), XInv hack f0 r wr0 P H b0 tail pre x →
+  have gen : ∀ (σ : List IoStep), (∀ s ∈ σ, H.safeWin hack s.m) → ∀ (x : Flow × SendObs × RecvObs), XInv hack f0 r wr0 P H b0 tail pre x →
       XInv hack f0 r wr0 P H b0 tail pre (σ.foldl (xStep hack P (pre ++ (H.enc ++ b0.enc ++ tail))) x) := by
     intro σ
     induction σ with
-    | nil => intro x hx; exact hx
-    | cons s rest ih => intro x hx; rw [List.foldl_cons]; exact ih _ (x_step_inv hack f0 r wr0 P I H b0 tail pre X htail x s hx)
-  exact gen σ _ (Or.inl ⟨Or.inl ⟨rfl, rfl⟩, rfl⟩)
+    | nil => intro _ x hx; exact hx
+    | cons s rest ih =>
+      intro hσ x hx
+      rw [List.foldl_cons]
+      exact ih (fun t ht => hσ t (by simp [ht])) _ (x_step_inv hack f0 r wr0 P I H b0 tail pre X htail x s hx (hσ s (by simp)))
+  exact gen σ hσ _ (Or.inl ⟨Or.inl ⟨rfl, rfl⟩, rfl⟩)
 
 theorem take_flatten_prefix (l : List Bytes) (k : Nat) : (l.take k).flatten <+: l.flatten := by
   refine ⟨(l.drop k).flatten, ?_⟩
@@ -477,7 +481,7 @@ theorem x_step_progress (hack : Bool) (f0 : Flow) (r : AReq) (wr0 : BodyWriter) 
     rw [hx, hsh, recvStep_shift]
     rcases recv_step_progress hack H b0 tail f1 S f o' s hri (by omega) (by omega) with hd | hlt
     · exact Or.inl hd
-    · have hinv2 := recv_step_inv hack H b0 tail f1 S f o' s hri
+    · have hinv2 := recv_step_inv hack H b0 tail f1 S f o' s hri (H.safeWin_full hack s.m (by omega))
       have hsafe2 := recv_safe_of_inv H b0 tail f1 _ _ S.hst hinv2
       generalize hy : recvStep hack (H.enc ++ b0.enc ++ tail) (f, o') s = y at hlt hinv2 hsafe2 ⊢
       obtain ⟨f2, o2⟩ := y
@@ -543,7 +547,7 @@ theorem x_live_aux (hack : Bool) (f0 : Flow) (r : AReq) (wr0 : BodyWriter) (P : 
       | nil => simp at hlen
       | cons s rest =>
         rw [List.foldl_cons]
-        have hinv := x_step_inv hack f0 r wr0 P I H b0 tail pre X htail x s hx
+        have hinv := x_step_inv hack f0 r wr0 P I H b0 tail pre X htail x s hx (H.safeWin_full hack s.m (by have := (hfull s (by simp)).1; omega))
         refine ih _ hinv ?_ rest (fun t ht => hfull t (by simp [ht])) (by simp at hlen; omega)
         rcases x_step_progress hack f0 r wr0 P I H b0 tail pre X htail x s hx (hfull s (by simp)) with hd | hlt
         · exact Or.inl hd
